@@ -31,7 +31,7 @@ Definition c17_append_guard : bool := true.
 Definition c17_left_floor : option Z := (Some (0)).
 Definition c17_right_floor : option Z := (Some (0)).
 Definition c17_substr_remap : option (Z * Z) := (Some ((0)%Z, (1)%Z)).
-Definition c17_soundex : soundex_cfg := mkSoundex [([66; 70; 80; 86], 49); ([67; 71; 74; 75; 81; 83; 88; 90], 50); ([68; 84], 51); ([76], 52); ([77; 78], 53); ([82], 54)] [72; 87].
+Definition c17_soundex : soundex_cfg := mkSoundex [([66; 70; 80; 86], 49); ([67; 71; 74; 75; 81; 83; 88; 90], 50); ([68; 84], 51); ([76], 52); ([77; 78], 53); ([82], 54)] [72; 87] true.
 Definition c17_concat_glue : glue := GluePipes.
 Definition c17_trunc_units : list (string * string) := [("dd", "day"); ("mm", "month"); ("mon", "month"); ("yy", "year"); ("yyyy", "year")]%string.
 Definition c17_facts : facts := mkFacts c17_slice c17_element_at c17_try_element_at c17_getitem c17_array_min_idx c17_array_max_idx c17_pos c17_fact c17_rint c17_dow c17_overlay c17_overlap c17_union c17_remove c17_nanvl c17_seq_default c17_date_add c17_date_sub c17_lev c17_unix_millis c17_slice_rebase c17_fact_guard c17_union_guard c17_overlay_glue c17_concat_glue c17_append_guard c17_left_floor c17_right_floor c17_substr_remap c17_soundex.
